@@ -28,9 +28,9 @@ RULE = ('(a) all strings of length <= k over the character alphabet that lex '
 # representative characters (DESIGN 3.1)
 ALPHA_QUICK = ['a', 'e', 'x', '1', '0', '.', "'", '\\', '/', '*', '+', '=',
                '<', ' ', '\n', '\r', '\u2028', '\t', 'é', '$', ';', '!',
-               '&', '>', '-']
+               '&', '>', '-', '\x0b', '\x1c']
 ALPHA_SMALL = ['a', '1', '.', "'", '\\', '/', '*', '+', '=', ' ', '\n', '\r',
-               '\u2029', '<', '"', '-']
+               '\u2029', '<', '"', '-', '\x0c', '\x85', '\x1d']
 
 PUNCT = ['.', ',', ';', ':', '+', '-', '*', '/', '%', '&', '|', '^', '~', '?',
          '!', '(', ')', '{', '}', '[', ']', '=', '==', '!=', '===', '!==',
